@@ -92,7 +92,9 @@ theorem Sh.setKkt {S T : SolverSt α} (h : Sh S T) (K : KktSolver α) :
 /-- `solve()` keeps the shape -/
 theorem Sh.solve {S0 : SolverSt α} {S : Solver α} {st : Settings α} {r : SolveResult α}
     (h : Sh S0 S.st) (hc : ConesOk S.st.cones) (hs : S.solve st = .ok r) : Sh S0 r.S.st :=
-  h.trans (Sh.of_sameShape (solve_sameShape hs hc))
+  let h2 := h.trans (Sh.of_sameShape (solve_sameShape hs hc))
+  ⟨rfl, h2.variables, h2.rx, h2.rz, h2.rx_inf, h2.rz_inf, h2.Px, h2.x1, h2.z1, h2.x2, h2.z2, h2.workx,
+    h2.workz, h2.workConic, h2.cones, h2.stepLhs, h2.stepRhs, h2.prevVars⟩
 
 /-- `WellSized` only looks at lengths and cone shapes -/
 theorem Sh.wellSized {S T : SolverSt α} (h : Sh S T) (hw : WellSized S) : WellSized T :=
